@@ -26,6 +26,12 @@ newly live shadowed slots until nothing changes (a single extra pass frees a slo
 chain of three shadowed bindings). -/
 theorem gen_recycler_fixpoint : recyclerIteratesToFixpoint = true := by decide
 
+/-- The model's `recycle` starts the walk from `roots` = the slots that are NOT candidates (`recycle_frees_unreached`,
+`recycle_frees_candidate_cycles` are about that); this obligation ties it to the source: it stops checking when the first
+walk of `GlobalSlotRecycler::recycle` also starts from candidate slots (a shadowed recursive function then keeps its own
+slot alive and is never reclaimed - seeded change C19-n2). -/
+theorem gen_recycler_roots_exclude_candidates : recyclerRootsExcludeCandidates = true := by decide
+
 /-- A live continuation's pending code (the functions of its captured frames and the top-level instructions they
 return into) mentions global slots exactly like a function body; this obligation stops checking when
 `GlobalSlotRecycler::visit_continuation` no longer hands that code to the scan (finding K06d, fixed in /repo
